@@ -237,12 +237,12 @@ pub fn run(ctx: &mut Ctx) {
     });
     ctx.require(&r, &["whole_days", "fractional_days"]);
 
-    // 6. raw constructor: accepted iff whole second in range
+    // 6. raw constructor
     let mut raws: Vec<i64> = Vec::new();
     for &o in ods.iter() { for d in [0i64, 1, -1, 500_000, 999_999, -999_999, US_SEC] { raws.push(o.saturating_add(d)); } }
     raws.extend_from_slice(&[i64::MIN, i64::MAX, rg::OD_MAX as i64 + US_SEC, rg::TS_MAX as i64, rg::TS_MIN as i64 - US_SEC]);
     let raws = &raws;
-    let r = ctx.sweep_each("try_from_usecs", "raw microsecond counts around the pool: accepted iff a whole second inside the range", raws.len() as u64, 256, |idx, acc| {
+    let r = ctx.sweep_each("try_from_usecs", "raw microsecond counts around the pool: a whole second inside the range is accepted unchanged; anything else is rejected or (an in-range instant with a sub-second part) floored to its second", raws.len() as u64, 256, |idx, acc| {
         let u = raws[idx as usize];
         acc.states += 1;
         acc.t(1);
@@ -250,6 +250,9 @@ pub fn run(ctx: &mut Ctx) {
         match guard(|| OracleDate::try_from_usecs(u).map(|o| o.usecs())) {
             Ok(Ok(v)) if valid && v == u => acc.cls("accepted"),
             Ok(Err(_)) if !valid => { acc.cls("rejected"); acc.nontrivial += 1; }
+            // "flooring sub-second input": a constructor may also accept an in-range instant with a
+            // sub-second part, provided it floors it toward earlier time
+            Ok(Ok(v)) if !valid && v as i128 == (u as i128).div_euclid(US_SEC as i128) * US_SEC as i128 && rg::od_ok(v as i128) && (u as i128) <= rg::TS_MAX => { acc.cls("floored"); acc.nontrivial += 1; }
             other => acc.fail("C16:OracleDate:try_from_usecs:acceptance-not-exact", idx, || (format!("OracleDate::try_from_usecs({u})"), format!("valid={valid}"), format!("{other:?}"), String::new())),
         }
     });
